@@ -1295,6 +1295,80 @@ impl Control {
 /// store to an atomic only it writes).  A start barrier and no sleeps make the threads overlap.
 /// One-sided and nondeterministic: a pass proves nothing, a failure is a real lost update.
 /// Returns (number of violations, descriptions of the first few).
+/// `get_stats` is answered while the housekeeping writer publishes (C18 quantifies over "concurrent setters and snapshot
+/// readers"): one thread repeats `SharedStats::update` over `links` socket-free links - what the tail of the housekeeping arm
+/// does once a second -, three threads repeat the REAL `dispatch` of a `get_stats` request with an id; every request must get
+/// its one response.  One-sided: the watchdog fires only when NO thread has made any progress for 10 s (a deadlock between a
+/// reader and the writer), never on slowness.  `Ok(n)` = n requests answered.
+fn stats_par_stress(rt: &tokio::runtime::Runtime, links: usize, millis: u64) -> Result<u64, String> {
+    use std::sync::Arc;
+    use std::sync::atomic::{AtomicBool, AtomicU64, Ordering};
+    let conns = rt.block_on(srtla_core::test_helpers::create_test_connections(links));
+    let sh = SharedStats::new();
+    sh.update(&conns, &srtla_core::ConfigSnapshot::default(), None, None);
+    let stop = Arc::new(AtomicBool::new(false));
+    let published = Arc::new(AtomicU64::new(0));
+    let answered = Arc::new(AtomicU64::new(0));
+    let bad = Arc::new(std::sync::Mutex::new(None::<String>));
+    let mut handles = Vec::new();
+    {
+        let (sh, stop, published) = (sh.clone(), stop.clone(), published.clone());
+        handles.push(std::thread::spawn(move || {
+            let cfg = srtla_core::ConfigSnapshot::default();
+            while !stop.load(Ordering::Acquire) {
+                sh.update(&conns, &cfg, None, None);
+                published.fetch_add(1, Ordering::AcqRel);
+            }
+        }));
+    }
+    for _ in 0..3 {
+        let (sh, stop, answered, bad) = (sh.clone(), stop.clone(), answered.clone(), bad.clone());
+        handles.push(std::thread::spawn(move || {
+            let cfg = DynamicConfig::new();
+            while !stop.load(Ordering::Acquire) {
+                let r = dispatch(&cfg, Some(&sh), None, r#"{"jsonrpc":"2.0","id":7,"method":"get_stats"}"#);
+                match r.map(|r| r.to_json()) {
+                    Some(t) if t.contains("\"result\"") && t.contains("\"id\":7") => {
+                        answered.fetch_add(1, Ordering::AcqRel);
+                    }
+                    other => {
+                        *bad.lock().unwrap() = Some(format!("get_stats with id 7 answered {other:?}"));
+                        return;
+                    }
+                }
+            }
+        }));
+    }
+    let t0 = std::time::Instant::now();
+    let mut last = (0u64, 0u64, std::time::Instant::now());
+    loop {
+        std::thread::sleep(std::time::Duration::from_millis(25));
+        let now = (published.load(Ordering::Acquire), answered.load(Ordering::Acquire));
+        if now.0 != last.0 || now.1 != last.1 {
+            last = (now.0, now.1, std::time::Instant::now());
+        }
+        if last.2.elapsed() > std::time::Duration::from_secs(10) {
+            // the threads are wedged: they cannot be joined; they are left behind (they hold nothing the harness needs)
+            stop.store(true, Ordering::Release);
+            return Err(format!(
+                "{links} links: no get_stats request was answered and no snapshot was published for 10 s ({} answered, {} published before): a snapshot reader and the housekeeping writer block each other",
+                now.1, now.0
+            ));
+        }
+        if t0.elapsed() > std::time::Duration::from_millis(millis) && last.2.elapsed() < std::time::Duration::from_millis(200) {
+            break;
+        }
+    }
+    stop.store(true, Ordering::Release);
+    for h in handles {
+        let _ = h.join();
+    }
+    if let Some(d) = bad.lock().unwrap().take() {
+        return Err(d);
+    }
+    Ok(answered.load(Ordering::Acquire))
+}
+
 fn par_stress(rounds: usize) -> (usize, Vec<String>) {
     use std::sync::{Arc, Barrier, Mutex};
     const KNOBS: [&str; 4] = ["mode", "quality_enabled", "stall_deselect", "conn_timeout_ms"];
@@ -1979,6 +2053,18 @@ impl Component for Control {
                 }
                 let (n, descs) = par_stress(rounds);
                 mon.count("par");
+                // snapshot readers against the housekeeping writer (2 links, and 6: more than the usual rig)
+                for links in [2usize, 6] {
+                    match stats_par_stress(&self.rt, links, 120) {
+                        Ok(answered) => {
+                            mon.count("par-get-stats");
+                            if answered == 0 {
+                                mon.count("par-get-stats:none-answered-in-window");
+                            }
+                        }
+                        Err(desc) => mon.fail("C18", "get-stats-never-answered", desc),
+                    }
+                }
                 if n > 0 {
                     mon.fail(
                         "C18",
